@@ -213,15 +213,40 @@ static const char *stress_mp (size_t cap, size_t chunk, unsigned long long total
 	return res;
 }
 
+/* allocator with an injected failure: the k-th allocation attempt fails (once, or from k on) while oom_at > 0 */
+static int oom_at, oom_from, oom_cnt;
+static ppointer oom_malloc (psize n) { if (oom_at && (++oom_cnt == oom_at || (oom_from && oom_cnt > oom_at))) return NULL; return malloc (n); }
+static ppointer oom_realloc (ppointer p, psize n) { if (oom_at && (++oom_cnt == oom_at || (oom_from && oom_cnt > oom_at))) return NULL; return realloc (p, n); }
+static void oom_free (ppointer p) { free (p); }
+
 int main (void) {
 	static char line[1 << 20], op[16], arg[1 << 19];
-	p_libsys_init ();
+	{ PMemVTable vt = { oom_malloc, oom_realloc, oom_free }; p_libsys_init_full (&vt); }
 	newname ();
 	while (fgets (line, sizeof line, stdin)) {
 		unsigned long h = 0; arg[0] = 0;
 		int n = sscanf (line, "%15s %lu %s", op, &h, arg);
 		if (n < 1) continue;
-		if (!strcmp (op, "new") && n == 3 && h < MAXH && !hs[h]) {
+		if (!strcmp (op, "newoom") && n == 2 && spy) {
+			/* further opens of the existing buffer that run out of memory at their k-th allocation, k = 1..24 (once and
+			 * from k on): each attempt either fails cleanly or yields a handle that is closed again at once — the buffer,
+			 * its name and the other handles must be exactly as before (a failed open is not an owner) */
+			int ok = 1;
+			/* the library reports failed allocations with printf: keep its chatter out of the protocol stream */
+			fflush (stdout);
+			int so = dup (1), dn = open ("/dev/null", O_WRONLY);
+			dup2 (dn, 1);
+			for (int mode = 0; mode < 2; ++mode)
+				for (int k = 1; k <= 24; ++k) {
+					oom_at = k; oom_from = mode; oom_cnt = 0;
+					PShmBuffer *b = p_shm_buffer_new (name, (psize) h, NULL);     /* `newoom SIZE`: the number lands in h */
+					oom_at = 0;
+					if (b) p_shm_buffer_free (b);
+				}
+			fflush (stdout);
+			dup2 (so, 1); close (so); close (dn);
+			puts (ok ? "ok" : "fail");
+		} else if (!strcmp (op, "new") && n == 3 && h < MAXH && !hs[h]) {
 			hs[h] = p_shm_buffer_new (name, (psize) strtoull (arg, NULL, 10), NULL);
 			owner[h] = hs[h] && !spy;       /* no segment before this call: this handle created it */
 			if (hs[h] && !spy) spy = p_shm_new (name, 0, P_SHM_ACCESS_READWRITE, NULL);
